@@ -97,3 +97,19 @@ func panicClass(site string, val interface{}) string {
 	}
 	return "panic:" + cat + "@" + site
 }
+
+// heldSeq renders everything observable of a result (for fw.Ctx.Hold).
+func heldSeq(seqs ...gts.Sequence) string {
+	var b strings.Builder
+	for _, s := range seqs {
+		if s == nil {
+			b.WriteString("<nil>\n")
+			continue
+		}
+		fmt.Fprintf(&b, "%q %v\n", s.Bytes(), s.Info())
+		for _, f := range s.Features() {
+			fmt.Fprintf(&b, " %s %s %q\n", f.Key, model.SafeString(f.Loc), f.Props)
+		}
+	}
+	return b.String()
+}
